@@ -223,6 +223,7 @@ struct Extractor : public RecursiveASTVisitor<Extractor> {
       else if (auto* D2 = dyn_cast<CXXDefaultInitExpr>(E)) N = D2->getExpr();
       else if (auto* CE = dyn_cast<ConstantExpr>(E)) N = CE->getSubExpr();
       else if (auto* SI = dyn_cast<CXXStdInitializerListExpr>(E)) N = SI->getSubExpr();
+      else if (auto* ST = dyn_cast<SubstNonTypeTemplateParmExpr>(E)) N = ST->getReplacement();
       if (N == E) break;
       E = N;
     }
